@@ -7,7 +7,9 @@ import regen
 
 def gen_cases(ctx):
     n = 2000 if ctx.quick else 30000
-    lines = qcommon.gen_statement_cases(ctx, n, no_marks=True)
+    # a quarter of the values come from a pool over every value kind (tools/richvalues.py); the 4th output field
+    # (value_to_string of every bound value, from the implementation) gives the oracle their literals
+    lines = qcommon.gen_statement_cases(ctx, n, no_marks=True, rich_values=400 if ctx.quick else 3000)
     # every public entry point, on the statement cases
     entries = ["entry " + l[5:] for l in lines if l.startswith("stmt ")]
     return lines + entries[: (600 if ctx.quick else 8000)]
@@ -80,7 +82,8 @@ def run(ctx):
         ctx, "fa", gen_cases, batch_oracle=batch_oracle, describe=qcommon.describe,
         regen=lambda c: regen.regen_exprtables(c),
         nontrivial=lambda c: "(val " in c,
-        rule="random builder programs x 3 backends; observed: to_string, build (sql, values), value_to_string of every "
+        rule="random builder programs x values of every kind (all 31 Value variants, finite floats, NULL of every "
+             "variant, arrays of every element kind) x 3 backends; observed: to_string, build (sql, values), value_to_string of every "
              "bound value, and (entry cases) build_any / build_collect / build_collect_any / build_collect_into / "
              "build_collect_any_into / second rendering / statement == clone taken before rendering; oracle: engine "
              "tokens of the inline form == engine tokens of the parameterised form with the i-th placeholder replaced "
